@@ -394,9 +394,14 @@ pub fn conc_configs(prop: &str, thorough: bool) -> Vec<SimConfig> {
             }
             v
         }
-        ("C04", false) => pick(&["n2-full-preempt-true"]),
+        ("C04", false) => {
+            let mut v = pick(&["n2-full-preempt-true"]);
+            v.extend(fresh_close_cfgs(false));
+            v
+        }
         ("C04", true) => {
             let mut v = pick(&["n2-full-preempt-true", "n2-full-preempt-false", "n2-two-origins"]);
+            v.extend(fresh_close_cfgs(true));
             for mut c in pick(&["n3-macro-preempt-true"]) {
                 c.name = format!("{}-d9", c.name);
                 c.max_depth = Some(9);
@@ -456,6 +461,23 @@ pub fn conc_configs(prop: &str, thorough: bool) -> Vec<SimConfig> {
         }
         _ => vec![],
     }
+}
+
+/// Interleaving configurations in which, besides pairs, every poll / background step is overlapped with the
+/// close of the connection it is about to create and with a new request (three parties: the operation, the peer
+/// and another caller). HTTP/2 only — the shared handle is registered in one critical section and the finished
+/// check-out is dropped in a later one.
+fn fresh_close_cfgs(thorough: bool) -> Vec<SimConfig> {
+    let mut v = vec![];
+    for preempt in if thorough { vec![true, false] } else { vec![true] } {
+        let mut c = SimConfig::base(&format!("n2-h2-fresh-close-preempt-{preempt}"));
+        c.allow_h1 = false;
+        c.continue_after_preemption = preempt;
+        c.ev_dial_fail = false;
+        c.ev_cancel = thorough;
+        v.push(c);
+    }
+    v
 }
 
 pub fn opts_for(prop: &'static str, thorough: bool) -> Opts {
